@@ -90,6 +90,9 @@ func (c *Ctx) panicAuto(rule string) func(panicSite) (string, bool) {
 			if c.indexResultGuardedEverywhere(s) {
 				return "sliced at the result of strings.Index*(same string, ·) on paths where that result was found not to be -1", true
 			}
+			if c.indexPlusOneSuffix(s) {
+				return "x[strings.Index*/LastIndex*(x, non-empty sep)+1:]: the low bound is between 0 (not found: -1+1) and len(x)", true
+			}
 			if c.lastElemGuardedEverywhere(s) {
 				return "x[len(x)-1] reached only on paths where len(x) is known positive", true
 			}
@@ -676,4 +679,45 @@ func runC19P10(c *Ctx, rule string) {
 	if n == 0 {
 		c.R.Unknown(rule, "session-nil-tested|none", "-", "no caller of getAuthenticatedSession uses its session result")
 	}
+}
+
+// indexPlusOneSuffix: every slice at the site is x[i+1:] with i = strings.Index/LastIndex(x, <non-empty constant>) or
+// IndexByte/LastIndexByte/IndexRune(x, ·) of the SAME string: i ranges over -1 … len(x)-1, so the bound is always valid
+// (neutral batch 9: strings.Split(email, "@") last element rewritten as email[strings.LastIndex(email, "@")+1:]).
+func (c *Ctx) indexPlusOneSuffix(s panicSite) bool {
+	n := 0
+	for _, b := range s.Fn.Blocks {
+		for _, in := range b.Instrs {
+			sl, ok := in.(*ssa.Slice)
+			if !ok || c.P.Pos(sl.Pos()) != c.P.Pos(s.Pos) {
+				continue
+			}
+			n++
+			if sl.High != nil || sl.Max != nil || sl.Low == nil {
+				return false
+			}
+			bo, ok := unwrap0(sl.Low).(*ssa.BinOp)
+			if !ok || bo.Op != token.ADD {
+				return false
+			}
+			k, ok := ConstInt(bo.Y)
+			if !ok || k != 1 {
+				return false
+			}
+			call, ok := unwrap0(bo.X).(*ssa.Call)
+			if !ok || len(call.Call.Args) < 2 || unwrap0(call.Call.Args[0]) != unwrap0(sl.X) {
+				return false
+			}
+			switch {
+			case isStd(&call.Call, "strings", "Index"), isStd(&call.Call, "strings", "LastIndex"):
+				if sep, ok := ConstString(call.Call.Args[1]); !ok || sep == "" {
+					return false
+				}
+			case isStd(&call.Call, "strings", "IndexByte"), isStd(&call.Call, "strings", "LastIndexByte"), isStd(&call.Call, "strings", "IndexRune"):
+			default:
+				return false
+			}
+		}
+	}
+	return n > 0
 }
